@@ -136,6 +136,14 @@ func (e *C19) prepare(w *World, state string) bool {
 	ed.Spec.Strategy.RollingUpdate.MaxUnavailable = kit.IS(1)
 	if state != "mid-rolling-update" {
 		c := &v1.ExtendedDaemonSetSpecStrategyCanary{Replicas: kit.IS(1 + r.Intn(2))}
+		if (state == "canary-before-first-pod" || state == "user-paused-before-first-pod") && r.Intn(3) == 0 {
+			// zero canary replicas (legal): a canary that is declared but never gets a node
+			if r.Intn(2) == 0 {
+				c.Replicas = kit.IS(0)
+			} else {
+				c.Replicas = kit.PS("0%")
+			}
+		}
 		if r.Intn(2) == 0 {
 			c.ValidationMode = v1.ExtendedDaemonSetSpecStrategyCanaryValidationModeManual
 		} else {
